@@ -67,6 +67,8 @@ type retRec struct {
 	st      *State
 	results []Term
 	idx     int
+	blk     *ssa.BasicBlock
+	pos     int
 }
 
 type privCell struct {
